@@ -1190,6 +1190,8 @@ def period_list(seed, tier):
         P += [(yc, m) for m in (1, 3, 4, 12)] + [(ycent,), (y400,)]
     P += [(yl, 2, 28), (yl, 2, 29), (yl, 3, 1), (yl, 4, 30), (yl, 12, 31), (yc, 2, 28)]
     P += [(yl, 2, 29, 23), (yl, 2, 29, 23, 59), (yl, 2, 29, 23, 59, 59)]
+    # the two ends of the DATETIME domain: the last period has no successor
+    P += [(9999,), (9999, 12), (9999, 12, 31), (9999, 11), (1,), (1, 1), (1, 1, 1)]
     return P
 
 
@@ -1197,14 +1199,17 @@ def period_bounds(p):
     """(first instant, last instant) of the period with the given components."""
     dt = datetime.datetime
     first = dt(*(list(p) + [1, 1, 0, 0, 0][len(p) - 1:]))
-    if len(p) == 1:
-        nxt = dt(p[0] + 1, 1, 1)
-    elif len(p) == 2:
-        nxt = dt(p[0] + (p[1] == 12), p[1] % 12 + 1, 1)
-    else:
-        step = {3: datetime.timedelta(days=1), 4: datetime.timedelta(hours=1),
-                5: datetime.timedelta(minutes=1), 6: datetime.timedelta(seconds=1)}[len(p)]
-        nxt = first + step
+    try:
+        if len(p) == 1:
+            nxt = dt(p[0] + 1, 1, 1)
+        elif len(p) == 2:
+            nxt = dt(p[0] + (p[1] == 12), p[1] % 12 + 1, 1)
+        else:
+            step = {3: datetime.timedelta(days=1), 4: datetime.timedelta(hours=1),
+                    5: datetime.timedelta(minutes=1), 6: datetime.timedelta(seconds=1)}[len(p)]
+            nxt = first + step
+    except (ValueError, OverflowError):
+        return first, dt.max       # the period runs to the end of the domain
     return first, nxt - datetime.timedelta(microseconds=1)
 
 
@@ -1236,7 +1241,7 @@ def period_leaves(seed, tier):
         first, last = period_bounds(p)
         t, pr = period_text(p), PRECISION[len(p)]
         add("date_term/" + pr, "d:" + t, ["drange", "d", f(first), f(last), False, False])
-        if len(p) == 2:
+        if len(p) == 2 and p[0] >= 1000:     # ("jan 1" is the first of January, not January of the year 1)
             add("date_term_named/" + pr, "d:'%s %d'" % (MONTHS[p[1] - 1], p[0]),
                 ["drange", "d", f(first), f(last), False, False], ("dates",))
         # open-ended ranges: docs/dates.rst advises against them with the
@@ -1286,7 +1291,11 @@ def period_instants(seed, tier):
     out = set()
     for p in period_list(seed, tier):
         first, last = period_bounds(p)
-        out.update([first - us, first, last, last + us])
+        out.update([first, last])
+        if first > datetime.datetime.min:
+            out.add(first - us)
+        if last < datetime.datetime.max:
+            out.add(last + us)
         if len(p) == 2:
             out.add(first + datetime.timedelta(days=14, hours=12))
     return sorted(out)
